@@ -12,7 +12,7 @@ RULE = (
     "whose targets are closer than their required gap (the solver had to act); distinct = distinct spec hash."
 )
 ASSUMPTIONS = [
-    "labels have positive width (>= 0.25) and |position| <= 1e4 (the interval tree of the layering step rejects empty intervals)",
+    "labels have positive width (>= 0.001) and |position| <= 1e4 (the interval tree of the layering step rejects empty intervals)",
     "layers are rebuilt from layerIndex and parent chains, not from getLayers()",
     "for non-adjacent pairs the bound is the chain sum of adjacent gaps (what neighbours guarantee), which implies the literal pairwise bound except for two stubs separated only by labels with width + 2*spacing < 2",
 ]
